@@ -6,11 +6,16 @@ package main
 
 import (
 	"bufio"
+	"bytes"
+	"context"
 	"encoding/json"
 	"flag"
 	"fmt"
 	"math/rand"
 	"os"
+	"os/exec"
+	"runtime/debug"
+	"time"
 )
 
 type Case map[string]interface{}
@@ -19,6 +24,9 @@ type family struct {
 	gen  func(rng *rand.Rand, idx int, tier string) Case // build a case (without "go")
 	run  func(c Case) interface{}                        // run the real code, canonical outcome
 	prep func(c Case)                                    // add oracle tables etc. to the case
+	// run every case in a child process: a fatal runtime error (stack overflow, concurrent map
+	// access) or a hang is then an observation about that case, not the end of the run
+	isolate bool
 }
 
 var families = map[string]*family{}
@@ -33,7 +41,14 @@ func main() {
 	replay := flag.String("replay", "", "file with cases (JSON lines) to re-run instead of generating")
 	corpus := flag.String("corpus", "", "file with corpus cases (JSON lines) to run first")
 	genOnly := flag.Bool("gen-only", false, "print the generated cases without running them")
+	shard := flag.Int("shard", 0, "index of this shard")
+	child := flag.Bool("child", false, "internal: run the replayed case in this process (used by the isolating parent)")
+	shards := flag.Int("shards", 1, "number of shards: this process runs the generated cases with idx % shards == shard (corpus: shard 0 only)")
 	flag.Parse()
+	if *child {
+		// a runaway recursion then ends in seconds instead of filling a 1 GB stack
+		debug.SetMaxStack(96 << 20)
+	}
 	f, ok := families[*fam]
 	if !ok {
 		fmt.Fprintf(os.Stderr, "unknown family %q\n", *fam)
@@ -56,7 +71,11 @@ func main() {
 		}
 		if !*genOnly {
 			fmt.Fprintf(os.Stderr, "CASE %v\n", c2["id"])
-			c2["go"] = safeRun(f, c2)
+			if f.isolate && !*child {
+				c2["go"] = runIsolated(*fam, c2)
+			} else {
+				c2["go"] = safeRun(f, c2)
+			}
 		}
 		b, err := json.Marshal(c2)
 		if err != nil {
@@ -96,10 +115,13 @@ func main() {
 		readFile(*replay)
 		return
 	}
-	if *corpus != "" {
+	if *corpus != "" && *shard == 0 {
 		readFile(*corpus)
 	}
 	for i := 0; i < *n; i++ {
+		if *shards > 1 && i%*shards != *shard {
+			continue
+		}
 		rng := rand.New(rand.NewSource(subSeed(*seed, i)))
 		c := f.gen(rng, i, *tier)
 		c["fam"] = *fam
@@ -115,4 +137,55 @@ func safeRun(f *family, c Case) (res interface{}) {
 		}
 	}()
 	return f.run(c)
+}
+
+// runIsolated re-executes this binary on the single case and returns its "go" column, or a
+// crash/timeout observation when the child does not survive it.
+func runIsolated(fam string, c Case) interface{} {
+	tmp, err := os.CreateTemp("", "verifcase*.jsonl")
+	if err != nil {
+		panic(err)
+	}
+	defer os.Remove(tmp.Name())
+	cc := Case{}
+	for k, v := range c {
+		if k != "go" {
+			cc[k] = v
+		}
+	}
+	b, _ := json.Marshal(cc)
+	tmp.Write(append(b, '\n'))
+	tmp.Close()
+	ctx, cancel := context.WithTimeout(context.Background(), 180*time.Second)
+	defer cancel()
+	cmd := exec.CommandContext(ctx, os.Args[0], "-fam", fam, "-replay", tmp.Name(), "-child")
+	var stdout, stderr bytes.Buffer
+	cmd.Stdout = &stdout
+	cmd.Stderr = &stderr
+	cmd.Env = append(os.Environ(), "GOMAXPROCS=2", "GOMEMLIMIT=3GiB")
+	runErr := cmd.Run()
+	if runErr == nil {
+		var out Case
+		dec := json.NewDecoder(bytes.NewReader(stdout.Bytes()))
+		if err := dec.Decode(&out); err == nil && out["go"] != nil {
+			return out["go"]
+		}
+	}
+	tail := stderr.String()
+	kind := "crash"
+	if ctx.Err() != nil {
+		kind = "timeout"
+	}
+	first := ""
+	for _, line := range bytes.Split(stderr.Bytes(), []byte("\n")) {
+		if bytes.HasPrefix(line, []byte("fatal error:")) || bytes.HasPrefix(line, []byte("panic:")) {
+			first = string(line)
+			break
+		}
+	}
+	where := panicSiteOuter(tail)
+	if len(tail) > 1500 {
+		tail = tail[:1500]
+	}
+	return map[string]interface{}{"loaded": true, "crash": kind, "fatal": first, "where": where, "stderr": tail}
 }
